@@ -1,10 +1,13 @@
 // C01 — query evaluation follows jq's backtracking-generator semantics.
 //
 // correspondence stream `eval`: real gojq (Parse → Compile → Run → Next…) vs Spec.eval
-//   (lean/Gojq/Model/Spec.lean) on the same (program, input): corpus queries, generated
-//   programs of the core grammar, bounded-exhaustive small programs.
+//
+//	(lean/Gojq/Model/Spec.lean) on the same (program, input): corpus queries, generated
+//	programs of the core grammar, bounded-exhaustive small programs.
+//
 // oracles (model-free): metamorphic laws of the generator semantics evaluated on the real
-//   code (pipe/comma/bind laws, closure capture, shadowing, try scope …).
+//
+//	code (pipe/comma/bind laws, closure capture, shadowing, try scope …).
 package main
 
 import (
@@ -252,31 +255,48 @@ func lawsOracle(ctx *common.Ctx) {
 		name       string
 		lhs, rhs   string // %A %B %C
 		needNoErrA bool
+		strictErr  bool // compare the terminal error too (the law is about which errors are intercepted)
 	}
 	laws := []law{
-		{"pipe-assoc", "[(%A | %B) | %C]", "[%A | (%B | %C)]", false},
-		{"comma-concat", "[%A, %B]", "[%A] + [%B]", false},
-		{"pipe-map", "[%A | %B]", "[[%A] | .[] | %B]", false},
-		{"def-unfold", "[def f: %A; f]", "[%A]", false},
-		{"closure-id", "[def f(g): g; f(%A)]", "[%A]", false},
-		{"closure-twice", "[def f(g): g, g; f(%A)]", "[%A, %A]", false},
-		{"value-param", "[def f($x): $x; f(%A)]", "[%A]", false},
-		{"bind-var", "[%A as $x | $x]", "[%A]", false},
-		{"limit-prefix", "[limit(2; %A)]", "[%A] | .[:2]", true},
-		{"first-head", "[first(%A)]", "[%A] | .[:1]", true},
-		{"isempty", "isempty(%A)", "[%A] | length == 0", true},
-		{"reduce-count", "reduce (%A) as $x (0; . + 1)", "[%A] | length", false},
-		{"foreach-index", "[foreach (%A) as $x (0; . + 1; [., $x])]", "[%A] | to_entries | map([.key + 1, .value])", false},
-		{"array-collect-idem", "[[%A] | .[]]", "[%A]", false},
-		{"try-transparent", "[try (%A) catch error]", "[%A]", false},
-		{"alt-truthy", "[(%A) // empty]", "[%A | select(. != null and . != false)]", true},
-		{"label-unused", "[label $l | %A]", "[%A]", false},
-		{"paren", "[(%A)]", "[%A]", false},
-		{"if-true", "[if true then %A else %B end]", "[%A]", false},
-		{"opt-noerr", "[(%A)?]", "[%A]", true},
-		{"right-outer", "[(%A) + (%B)]", "[%B as $b | %A as $a | $a + $b]", false},
-		{"keys-before-values", "[{(%A): (%B)}]", "[%A as $k | %B as $v | {($k): $v}]", false},
-		{"params-left-to-right", "[def f($a; $b): [$a, $b]; f(%A; %B)]", "[%A as $a | %B as $b | [$a, $b]]", false},
+		{"pipe-assoc", "[(%A | %B) | %C]", "[%A | (%B | %C)]", false, false},
+		{"comma-concat", "[%A, %B]", "[%A] + [%B]", false, false},
+		{"pipe-map", "[%A | %B]", "[[%A] | .[] | %B]", false, false},
+		{"def-unfold", "[def f: %A; f]", "[%A]", false, false},
+		{"closure-id", "[def f(g): g; f(%A)]", "[%A]", false, false},
+		{"closure-twice", "[def f(g): g, g; f(%A)]", "[%A, %A]", false, false},
+		{"value-param", "[def f($x): $x; f(%A)]", "[%A]", false, false},
+		{"bind-var", "[%A as $x | $x]", "[%A]", false, false},
+		{"limit-prefix", "[limit(2; %A)]", "[%A] | .[:2]", true, false},
+		{"first-head", "[first(%A)]", "[%A] | .[:1]", true, false},
+		{"isempty", "isempty(%A)", "[%A] | length == 0", true, false},
+		{"reduce-count", "reduce (%A) as $x (0; . + 1)", "[%A] | length", false, false},
+		{"foreach-index", "[foreach (%A) as $x (0; . + 1; [., $x])]", "[%A] | to_entries | map([.key + 1, .value])", false, false},
+		{"array-collect-idem", "[[%A] | .[]]", "[%A]", false, false},
+		{"try-transparent", "[try (%A) catch error]", "[%A]", false, false},
+		{"alt-truthy", "[(%A) // empty]", "[%A | select(. != null and . != false)]", true, false},
+		{"label-unused", "[label $l | %A]", "[%A]", false, false},
+		{"paren", "[(%A)]", "[%A]", false, false},
+		{"if-true", "[if true then %A else %B end]", "[%A]", false, false},
+		{"opt-noerr", "[(%A)?]", "[%A]", true, false},
+		{"right-outer", "[(%A) + (%B)]", "[%B as $b | %A as $a | $a + $b]", false, false},
+		{"keys-before-values", "[{(%A): (%B)}]", "[%A as $k | %B as $v | {($k): $v}]", false, false},
+		{"params-left-to-right", "[def f($a; $b): [$a, $b]; f(%A; %B)]", "[%A as $a | %B as $b | [$a, $b]]", false, false},
+		// which errors try / ? intercept: a try whose body raises no error is transparent, whatever
+		// its continuation does (errors raised downstream are NOT caught, also through nested trys)
+		{"try-cont", "(try (%A) catch \"C\") | %B", "%A | %B", true, true},
+		{"try-nested-cont", "(try (try (%A) catch \"C1\") catch \"C2\") | %B", "%A | %B", true, true},
+		{"opt-cont", "(%A)? | %B", "%A | %B", true, true},
+		{"opt-nested-cont", "((%A)?)? | %B", "%A | %B", true, true},
+		{"try-in-func-cont", "def t(f): try f catch \"C\"; t(t(%A)) | %B", "%A | %B", true, true},
+		{"try-catch-value", "[try ((%A), error(\"E\")) catch .]", "[%A, \"E\"]", true, false},
+		{"try-inner-first", "[try (try ((%A), error(\"E\")) catch \"in\") catch \"out\"]", "[%A, \"in\"]", true, false},
+		{"alt-cont", "((%A) // (%B)) | %C", "[%A | select(. != null and . != false)] as $t | (if ($t | length) > 0 then $t[] else %B end) | %C", true, true},
+		{"label-cont", "(label $l | %A) | %B", "%A | %B", true, true},
+		{"first-cont", "first(%A) | %B", "[%A][:1][] | %B", true, true},
+		{"reduce-cont", "reduce (%A) as $x (0; . + 1) | %B", "([%A] | length) | %B", true, true},
+		{"func-cont", "def f: %A; f | %B", "%A | %B", false, true},
+		{"closure-cont", "def f(g): g | %B; f(%A)", "%A | %B", false, true},
+		{"bind-cont", "(%A) as $x | $x | %B", "%A | %B", false, true},
 	}
 	distinct := map[string]bool{}
 	n := ctx.N(4000, 80000)
@@ -303,7 +323,7 @@ func lawsOracle(ctx *common.Ctx) {
 			ctx.Violate("law-panic:"+sub(l.lhs), "panic while evaluating a law: "+lo.Panic+ro.Panic, map[string]any{"lhs": sub(l.lhs), "rhs": sub(l.rhs), "input": common.Canon(in)})
 			continue
 		}
-		if strings.Contains(A, "?//") && (l.needNoErrA || l.name == "label-unused") {
+		if (strings.Contains(A, "?//") || l.strictErr && strings.Contains(B+C, "?//")) && (l.needNoErrA || l.name == "label-unused" || l.strictErr) {
 			// `?//` also intercepts `break` (as in jq 1.6: `[first([] as [$a] ?// $b | null)]` is [null,null]),
 			// so laws about label/break-based builtins do not apply to such sub-programs
 			orc.Distribution["skipped:?// intercepts break"]++
@@ -321,7 +341,7 @@ func lawsOracle(ctx *common.Ctx) {
 		// outputs before it agree where the law is about values (both sides collect into one array, so
 		// an error means no output at all): compare error classes only for user errors
 		lc, rc := common.CanonOutcome(lo), common.CanonOutcome(ro)
-		if lo.Err != nil && ro.Err != nil {
+		if lo.Err != nil && ro.Err != nil && !l.strictErr {
 			// both fail: the law holds vacuously unless it states which error comes first
 			distinct[l.name+lc] = true
 			continue
